@@ -8,7 +8,7 @@ Open Scope string_scope.
 Open Scope list_scope.
 
 (* ---- the property over everything that is probed: a request that returns quietly was well-formed ---- *)
-(* Full statement; false of the faithful model (known finding F3; F1 and F2 were repaired by D48 / D49), kept visible: *)
+(* Full statement (F1, F2, F3 were repaired by D48, D49, D76; one finding left: F4), kept visible: *)
 Definition C20_full : Prop := C20_full_statement.
 (* = forall p, WFprobe p -> impl p = Ok -> WellFormed p *)
 
@@ -21,14 +21,26 @@ Theorem C20_malformed_is_loud : forall p, WFprobe p -> guard p = true -> ~ WellF
 Proof. exact malformed_is_loud. Qed.
 Print Assumptions C20_malformed_is_loud.
 
-(* the code as it is (Guards.fixed_F3 = false): refuted; with /verif/fixes/proposed_fix_C20_F3.diff applied the switch
-   is set to true and the full statement is the theorem C20_full_when_F3_fixed eq_refl *)
-Theorem C20_refuted_verify_path : fixed_F3 = false -> ~ C20_full_statement /\ guard_path_not_attr F3_probe = false.
+(* HEADLINE on the current tree (D76 applied, Guards.fixed_F3 = true): the full statement holds for every probe except a
+   node_values key that is too short for the hierarchy and names a circuit (finding F4, switch Guards.fixed_F4) *)
+Theorem C20_full_holds_modulo_F4 : forall p, WFprobe p -> guard_node_value_not_circuit p = true -> impl p = Ok -> WellFormed p.
+Proof. exact (GuardsProofs.C20_full_modulo_F4_when_F3_fixed eq_refl). Qed.
+Print Assumptions C20_full_holds_modulo_F4.
+(* with /verif/fixes/proposed_fix_C20_F4.diff and fixed_F4 := true: `C20_full_holds := C20_full_when_fixed eq_refl eq_refl` *)
+Theorem C20_full_when_fixed : fixed_F3 = true -> fixed_F4 = true -> C20_full_statement.
+Proof. exact GuardsProofs.C20_full_when_fixed. Qed.
+Print Assumptions C20_full_when_fixed.
+Theorem C20_refuted_short_node_value : fixed_F4 = false -> ~ C20_full_statement /\ guard_node_value_not_circuit F4_probe = false.
+Proof. exact GuardsProofs.C20_refuted_short_node_value. Qed.
+Print Assumptions C20_refuted_short_node_value.
+Theorem C20_short_node_value_repaired : forall depth hnet p, too_short depth p = true ->
+  names_circuit hnet (node_part p) = true -> hier_result_gen true HNodeValue depth hnet p = Warn.
+Proof. exact short_node_value_repaired. Qed.
+Print Assumptions C20_short_node_value_repaired.
+(* before D76 (fixed_F3 = false) the statement was also refuted by `_verify_path` (F3) *)
+Theorem C20_refuted_verify_path_before_D76 : fixed_F3 = false -> ~ C20_full_statement /\ guard_path_not_attr F3_probe = false.
 Proof. exact GuardsProofs.C20_refuted_verify_path. Qed.
-Print Assumptions C20_refuted_verify_path.
-Theorem C20_full_when_F3_fixed : fixed_F3 = true -> C20_full_statement.
-Proof. exact GuardsProofs.C20_full_when_F3_fixed. Qed.
-Print Assumptions C20_full_when_F3_fixed.
+Print Assumptions C20_refuted_verify_path_before_D76.
 
 (* the decidable test used by the correspondence run is the specification *)
 Theorem C20_test_is_spec : forall p r, WFprobe p -> (meets_spec p r = true <-> (WellFormed p \/ loud_enough p r)).
@@ -100,6 +112,7 @@ Print Assumptions C20_verify_path_repaired_full.
 
 (* hierarchical circuits: a path of depth + 3 components, any depth *)
 Theorem C20_hierarchical : forall k depth hnet p, WFnet (subnet hnet (firstn depth p)) ->
+  guard_node_value_not_circuit (PHier k depth hnet p) = true ->
   hier_result k depth hnet p = Ok -> WellFormed (PHier k depth hnet p).
 Proof. exact hier_ok_wellformed. Qed.
 Print Assumptions C20_hierarchical.
